@@ -19,7 +19,7 @@ def run(ctx):
     pepsolve.r_primalflow(ctx)
     wrappers.r_lmienc(ctx)
     mosekprog.r_solve_call(ctx)
-    solveprog.r_solve_program(ctx, {"primal"})
+    solveprog.r_solve_program(ctx, {"primal", "return"})
     wrappers.r_mainvars(ctx)
     wrappers.r_trilorder(ctx)
     ctx.floor("decomposition consumers", ctx.analysed.get("decomposition consumers", 0), 4)
